@@ -25,7 +25,7 @@ REAL_VS_STUB = {'real': ['kyupy.circuit: GrowingList, IndexList, Node, Line, Cir
                 'stub': ['none (RefGraph is the reference model, not a replacement)']}
 ASSUMPTIONS = ['trailing unconnected pin slots (None at the end of a pin list) are not part of the compared state: a restore legitimately drops them',
                'substitute is checked by the invariants after the step and the model is re-synchronised from the real object (its rewiring is too rich to predict; its function preservation is C10)']
-EXPECTED_PROBES = ['original_checked_after_edits_on_copy', 'wide_fork', 'double_remove', 'shared_name', 'hole_filled_by_last', 'restore_mid_history', 'copy_mid_history', 'duplicate_name_rejected', 'explicit_pin', 'fork_squeeze', 'eliminate_spliced', 'eliminate_kept_undriven', 'substitute_done', 'substitute_ignored_input']
+EXPECTED_PROBES = ['mismatching_substitute_rejected', 'original_checked_after_edits_on_copy', 'wide_fork', 'double_remove', 'shared_name', 'hole_filled_by_last', 'restore_mid_history', 'copy_mid_history', 'duplicate_name_rejected', 'explicit_pin', 'fork_squeeze', 'eliminate_spliced', 'eliminate_kept_undriven', 'substitute_done', 'substitute_ignored_input']
 
 KINDS = ['and', 'or', 'nand', 'not', 'buf', 'xor', 'dff', 'latch', 'input', 'output', 'AOI21', 'mux21', 'DFFX1', '__const0__', 'INPUT', 'OUTPUT', 'SDFFLATCHX1', 'Put', 'DLATCH']
 OPS = ['node', 'node', 'node', 'fork', 'line', 'line', 'line', 'line', 'linex', 'linex', 'rmline', 'rmline', 'rmnode', 'gof', 'io', 'ioset', 'elim', 'subst', 'copy', 'restore', 'dup']
@@ -239,6 +239,24 @@ class Exec:
             n_in = max(n_in, len(self.node_obj(key).ins))
             n_out = max(n_out, len(self.node_obj(key).outs))
             self.names += 1
+            real = self.node_obj(key)
+            if e % 6 == 0 and len(real.ins) >= 1:
+                # an implementation with too few input ports: the call is rejected, and a rejected call changes nothing
+                text, _nu = impl_text(d, len(real.ins) - 1, max(1, n_out), self.names)
+                with contextlib.redirect_stdout(io.StringIO()):
+                    impl = bench.parse(text)
+                    impl.eliminate_1to1_forks()
+                before = graphsim.real_signature(c)
+                try:
+                    c.substitute(real, impl)
+                    res.violate('graph-mismatching-substitute-accepted', f'step {k}: substitute accepted an implementation with {len(real.ins) - 1} input ports for a node with {len(real.ins)} input pins')
+                    return 'subst_bad'
+                except (AssertionError, ValueError, IndexError, TypeError):
+                    res.probe('mismatching_substitute_rejected')
+                if graphsim.real_signature(c) != before:
+                    res.violate('graph-rejected-substitute-changed-graph', f'step {k}: a rejected substitute (too few input ports) left the graph changed')
+                    return 'subst_bad'
+                return f'rejected substitute({key[0]})'
             text, n_unused = impl_text(d, n_in, n_out, self.names)
             with contextlib.redirect_stdout(io.StringIO()):
                 impl = bench.parse(text)
